@@ -51,7 +51,7 @@ fn alphabet(level: u8) -> Vec<Op> {
         // small first-epoch alphabet for length-3 histories in the quick tier
         4 => vec![p("p", 0), p("emb:e", 3), d("p"), Op::Checkpoint, Op::Sync],
         // quick first epoch
-        1 => vec![p("p", 0), p("p", 1), p("emb:e", 3), p("emb:e", 4), p("node:n", 5), p("_cache:c", 0), p("_cachex", 1), d("p"), d("emb:e"), Op::Checkpoint, Op::Sync],
+        1 => vec![p("p", 0), p("p", 1), p("emb:e", 3), p("emb:e", 6), p("node:n", 5), p("_cache:c", 0), p("_cachex", 1), d("p"), d("emb:e"), Op::Checkpoint, Op::Sync],
         // thorough first epoch: two keys per class, all value kinds, full-dimension embeddings
         _ => vec![
             p("p", 0), p("p", 2), p("q", 1), p("emb:e", 3), p("emb:e", 6), p("emb:f", 7), p("node:n", 5), p("table:t:1", 8), p("table:t:2", 9), p("_cache:c", 0), p("_cachex", 1), p("_cache", 2),
@@ -61,6 +61,36 @@ fn alphabet(level: u8) -> Vec<Op> {
 }
 
 type Model = BTreeMap<String, TensorData>;
+
+/// equality of two store observations, except that a slab-served embedding (length >= 256, the documented
+/// compression threshold) may come back from a checkpoint snapshot within the documented reconstruction
+/// tolerance (relative L2 error <= 1e-2, "<1% error") instead of bit-identical — the same allowance C07 makes
+fn model_matches(want: &Model, got: &Model) -> bool {
+    if want.len() != got.len() {
+        return false;
+    }
+    want.iter().zip(got.iter()).all(|((ka, a), (kb, b))| {
+        if ka != kb {
+            return false;
+        }
+        if a == b {
+            return true;
+        }
+        let (fa, fb): (BTreeMap<String, TensorValue>, BTreeMap<String, TensorValue>) = (a.fields_iter().map(|(k, v)| (k.clone(), v.clone())).collect(), b.fields_iter().map(|(k, v)| (k.clone(), v.clone())).collect());
+        fa.len() == fb.len()
+            && fa.iter().zip(fb.iter()).all(|((na, va), (nb, vb))| {
+                na == nb
+                    && match (va, vb) {
+                        (TensorValue::Vector(x), TensorValue::Vector(y)) if x.len() >= 256 && x.len() == y.len() => {
+                            let num: f64 = x.iter().zip(y).map(|(p, q)| (f64::from(*p) - f64::from(*q)).powi(2)).sum();
+                            let den: f64 = x.iter().map(|p| f64::from(*p).powi(2)).sum();
+                            num.sqrt() <= 1e-2 * den.sqrt().max(f64::MIN_POSITIVE)
+                        }
+                        _ => va == vb,
+                    }
+            })
+    })
+}
 
 fn apply_model(m: &Model, op: &Op) -> Model {
     let mut n = m.clone();
@@ -311,7 +341,7 @@ fn epoch(ctx: &mut Ctx, base: &Fs, m0: &Model, hist: &[Op], epoch_no: usize, tra
             }
         };
         ctx.seen_states.insert(show_model(&obs));
-        let matched = (lo..=hi).find(|&j| states[j] == obs);
+        let matched = (lo..=hi).find(|&j| model_matches(&states[j], &obs));
         match matched {
             Some(j) => {
                 // continue from this image in the next epoch (torn images and op boundaries)
@@ -324,8 +354,10 @@ fn epoch(ctx: &mut Ctx, base: &Fs, m0: &Model, hist: &[Op], epoch_no: usize, tra
             }
             None => {
                 // a rotated log segment exists: acknowledged records may sit in it
-                let rotated = img.fs.files.keys().any(|p| p.ends_with("store.wal.1"));
-                let earlier = (0..lo).find(|&j| states[j] == obs);
+                // (or existed: rotation also deletes the oldest segment — the log ops up to this image tell)
+                let rotated = img.fs.files.keys().any(|p| p.ends_with("store.wal.1"))
+                    || ops[..img.ops_applied].iter().any(|o| matches!(o, IoOp::Rename { to, .. } if to.contains("store.wal.")) || matches!(o, IoOp::Unlink { path } if path.contains("store.wal")));
+                let earlier = (0..lo).find(|&j| model_matches(&states[j], &obs));
                 let sig = if earlier.is_some() {
                     let why = if rotated { "with-rotation" } else if epoch_no > 1 { "after-earlier-crash" } else if hist[..returned].iter().any(|o| *o == Op::Checkpoint) { "with-checkpoint" } else { "plain" };
                     format!("c02:acknowledged-write-lost:{why}")
@@ -486,6 +518,7 @@ fn main() {
     let thorough = rep.thorough();
     rep.rule("histories: all sequences of put_durable/delete_durable/checkpoint/sync over one or two keys per key class (plain, emb:, node:, table:, _cache:, and ordinary keys that merely start with the letters _cache) and all value kinds, x sync modes {Immediate, Batched(2), Manual} x {rotation off, on}; crash images: every I/O-op boundary, every byte cut of every write (writes >160 B: first/last 24 bytes + every 61st), every length of the log's unsynced tail; epochs 2-3 continue on the store recovered from every distinct image. non-trivial = image with a torn or unsynced tail");
     rep.assume("crash model: prefix persistence per file; renames/unlinks/truncations atomic and ordered; snapshot files subject to process-crash only (no power-loss cut after rename); directory fsync not modelled");
+    rep.assume("states are compared exactly, except that an embedding of length >= 256 may differ within the documented snapshot reconstruction tolerance (relative L2 <= 1e-2) — checkpoints write the compressed snapshot format");
     rep.assume("acknowledged = call returned (Immediate) / covered by a later returned sync() or checkpoint() (Batched, Manual); _cache: keys are ignored in the comparison");
     let n = par::worker_count();
     let results: Vec<Stats> = par::spawn_workers(n, &[]);
